@@ -3,8 +3,9 @@ CONSTANTS
   Reqs <- ReqsSame2
   Parts <- P13
   RegAfter <- RegFirst
+  KeyOf <- IdKey
   Dups = {}
   LookupAtomic = TRUE
   FailIdx = {2}
-INVARIANTS NoSpurious MatchOnce NoLoss Emit
+INVARIANTS NoSpurious MatchOnce NoLoss RightType Emit
 CHECK_DEADLOCK FALSE
